@@ -26,9 +26,11 @@ CONSTANTS Handlers, MaxPre, MaxResp, Ids, Chain, ClearOnRun, Export
 RL == "rl"
 Threads == Handlers \cup {RL}
 
-\* a response may ask the consumer it hits to send a follow-up message (only a successful
-\* response carries a body that can say so)
-RespT == {r \in [id : Ids, ok : BOOLEAN, chain : (IF Chain THEN BOOLEAN ELSE {FALSE})] : r.chain => r.ok}
+\* a response may ask the consumer it hits to send a follow-up message (chain) and / or to
+\* return an error (cerr); only a successful response carries a body that can say so.
+\* A consumer's error is reported to the caller and changes nothing else.
+RespT == {r \in [id : Ids, ok : BOOLEAN, chain : (IF Chain THEN BOOLEAN ELSE {FALSE}), cerr : BOOLEAN] :
+             (r.chain => r.ok) /\ (r.cerr => r.ok)}
 Progs == [pre : 0..MaxPre,
           resps : UNION {[1..n -> RespT] : n \in 0..MaxResp},
           gor : SUBSET Handlers]
